@@ -51,7 +51,7 @@ func (C14) Runs(tier string) uint64 {
 }
 
 var inplaceOps = []string{"RewriteRegexConditions", "RewriteDistinct", "RewriteTimeFields", "SetTimeRange", "RewriteMutate", "RewriteExprMutate", "GroupByInterval"}
-var derivedOps = []string{"Reduce", "RewriteFields", "String", "ColumnNames", "Names", "AliasNames", "RequiredPrivileges", "WalkFunc", "EvalFields", "EvalType", "ConditionExpr", "ReduceExpr", "FieldDimensions", "HasWildcard", "ExprNames", "FieldExprByName", "Normalize", "GroupByOffset", "Measurements", "Eval", "EvalBool", "TypeValuerEval", "BinaryExprName", "CloneExpr", "HasTimeExpr", "TimeAscending", "RewriteFieldsNilMapper"}
+var derivedOps = []string{"Reduce", "RewriteFields", "String", "ColumnNames", "Names", "AliasNames", "RequiredPrivileges", "WalkFunc", "EvalFields", "EvalType", "ConditionExpr", "ReduceExpr", "FieldDimensions", "HasWildcard", "ExprNames", "FieldExprByName", "Normalize", "GroupByOffset", "Measurements", "Eval", "EvalBool", "TypeValuerEval", "BinaryExprName", "CloneExpr", "HasTimeExpr", "TimeAscending", "RewriteFieldsNilMapper", "TimeRangeMethods", "PartitionExpr", "ConjunctionsRoundTrip", "SortFields", "ListStrings"}
 
 func (C14) NewPlan(r *core.Rand, tier string, i uint64) interface{} {
 	p := &C14Plan{}
